@@ -512,6 +512,38 @@ def check_template() -> list[tuple[str, str]]:
             continue
         if (sec, attr) not in have:
             out.append((f"C18/template/missing/{sec}.{attr}", f"{cls.__qualname__}.{attr} is file-configurable under [{sec}] but the template does not list it"))
+    # the template is a valid gallia.toml, and using it as it stands changes nothing: for every command the configuration parsed
+    # with the template as config file equals the one parsed without a file
+    import tomllib
+
+    try:
+        toml = tomllib.loads(buf.getvalue())
+    except Exception as e:  # noqa: BLE001
+        out.append(("C18/template/not-valid-toml", f"tomllib: {e}"))
+        return out
+    # A file key shared by several commands can have different built-in defaults per command (`properties` is on for scanners, off
+    # for primitives) - the template can only show one of them. Only keys whose default is the same wherever they are declared
+    # must be left unchanged by the template.
+    defaults: dict[str, set[str]] = {}
+    for _name, command in flat_commands():
+        for k, f in command.CONFIG_TYPE.model_fields.items():
+            defaults.setdefault(k, set()).add(repr(f.get_default()) if not f.is_required() else "<required>")
+    for name, command in flat_commands():
+        base = base_args(name, command)
+        if base is None:
+            continue
+        s0, c0, e0 = parse(command, base, {}, {})
+        s1, c1, e1 = parse(command, base, {}, toml)
+        if s0 != "ok":
+            continue
+        if s1 != "ok":
+            out.append((f"C18/template/rejected-as-config-file/{name.replace(' ', '-')}", f"{name}: {s1} {e1[-200:]}"))
+            continue
+        j0, j1 = json.loads(c0.model_dump_json()), json.loads(c1.model_dump_json())
+        diff = [k for k in j0 if j0[k] != j1.get(k) and len(defaults.get(k, set())) == 1]
+        if diff:
+            out.append((f"C18/template/changes-defaults/{diff[0]}", f"{name}: with the template as gallia.toml {diff[:4]} differ: "
+                        f"{[(k, j0[k], j1.get(k)) for k in diff[:3]]}"))
     return out
 
 
